@@ -53,3 +53,15 @@ impl Fiber {
   #[verifier::external_body]
   pub fn verif_error_backtrace(&self, handler: &ExceptionHandler) -> (r: Vec<String>) { Vec::new() }
 }
+
+// ---- print_error (C18) ----------------------------------------------------------------------------------------------------------
+impl CallFrame { #[verifier::external_body] pub fn ip(&self) -> (r: IpPtr) ensures ip_val(r) == frame_ip(*self) { IpPtr { p: 0 } } }
+impl Clone for IpPtr { #[verifier::external_body] fn clone(&self) -> (r: Self) ensures r == *self { IpPtr { p: self.p } } }
+impl Copy for IpPtr {}
+/// the traceback being printed: one (frame, instruction pointer) pair per line, in print order
+pub struct TraceOut { pub ghost lines: Seq<(CallFrame, int)> }
+impl TraceOut {
+  /// R8: `  path:line in name` where line = get_line(ip.offset_from(code start) - 1) of the frame's function
+  #[verifier::external_body]
+  pub fn verif_frame_line(&mut self, frame: &CallFrame, ip: IpPtr) ensures final(self).lines == old(self).lines.push((*frame, ip_val(ip))) { }
+}
